@@ -405,6 +405,10 @@ func c08Engine(r *R, sp c08Spec, conf map[string]interface{}, files map[string][
 				if pl.ReadChunk == 0 {
 					pl.ReadChunk = 16
 				}
+				if sz := len(files[name]); sz/pl.ReadChunk > 200 {
+					// (a file with very long lines: keep one pass within some 200 slow reads, or the run outlasts the horizon)
+					pl.ReadChunk = sz/200 + 1
+				}
 				pp := pl
 				disk.Plans[name] = &pp
 			}
